@@ -213,7 +213,18 @@ func c07Case(ctx *genCtx, ts *tape.Set, dir string) *genResult {
 	w := world.Generate(ts.Fork("world"), prof)
 	plan := drawPlan(ts.Fork("plan"))
 	plan.PkgOrder = 0
-	args := worldPkgs(w)
+	targs := worldPkgs(w)
+	args := targs
+	// how the packages are named on the command line (all executions of a history alike)
+	switch ts.Fork("spelling").Intn(5) {
+	case 3:
+		args = nil
+		for _, a := range targs {
+			args = append(args, world.ModulePath+"/"+strings.TrimPrefix(a, "./"))
+		}
+	case 4:
+		args = []string{"./..."}
+	}
 	var flags []string
 	if pt.Intn(5) == 0 {
 		// "for the current sources and flags": histories under customised prefixes
@@ -263,7 +274,7 @@ func c07Case(ctx *genCtx, ts *tape.Set, dir string) *genResult {
 				reordered = "true"
 			}
 			if sr.Exit == 0 {
-				if errs := typecheck(hist, args...); len(errs) > 0 {
+				if errs := typecheck(hist, targs...); len(errs) > 0 {
 					clause = "not-typecheck"
 					d += " | " + strings.Join(errs, " | ")
 				}
@@ -379,6 +390,13 @@ func c07Case(ctx *genCtx, ts *tape.Set, dir string) *genResult {
 			}
 			log = append(log, fmt.Sprintf("short-write-run(op %d k=%d -> exit %d)", f.Op, f.K, r.Exit))
 			dirty = true
+			if r.Exit == 0 && strings.Contains(r.Trace, "fault short-write") {
+				// the run claims success although a write failed: what it left must still be the from-scratch bytes
+				if v := check(r, "a run that exits 0 although a write of derived.gen.go failed with ENOSPC"); v != nil {
+					v.Clause = "success-after-failed-write"
+					res.V = v
+				}
+			}
 		case 5: // I/O error on create / close / remove
 			disc := filepath.Join(dir, "disc")
 			os.RemoveAll(disc)
@@ -399,6 +417,12 @@ func c07Case(ctx *genCtx, ts *tape.Set, dir string) *genResult {
 			}
 			log = append(log, fmt.Sprintf("io-error-run(%s on %s op %d -> exit %d)", f.Errno, o.Kind, f.Op, r.Exit))
 			dirty = true
+			if r.Exit == 0 && strings.Contains(r.Trace, "fault err") {
+				if v := check(r, fmt.Sprintf("a run that exits 0 although %s of derived.gen.go failed with %s", o.Kind, f.Errno)); v != nil {
+					v.Clause = "success-after-failed-" + o.Kind
+					res.V = v
+				}
+			}
 		}
 	}
 	_ = dirty
